@@ -8,7 +8,7 @@ From src/datashard/storage_backend.py
     gen_init_prefix  prefix           S3StorageBackend.__init__: `self.prefix = <expr over prefix>`
     gen_full_prefix  env_prefix table_path   create_storage_backend: table_prefix / full_prefix if-chain
     gen_cas_conflict_codes            the tuple tested in write_file_cas
-    gen_code_*                        the error-code literals compared in read_op / open_op / exists_op / size_op / mtime_op
+    gen_code_*                        the error-code literals compared in read_op / exists_op / size_op / mtime_op
 From src/datashard/s3_consistency.py
     gen_permanent_codes               PERMANENT_S3_ERROR_CODES (sorted)
     gen_max_retries, gen_initial_delay, gen_max_delay, gen_backoff_factor   S3ConsistencyHandler.__init__ defaults
@@ -144,16 +144,14 @@ def digest(node) -> str:
 
 # Golden AST digests of the code modelled by hand (computed on the repaired tree; see `--pins` below).
 PINS = {
-    # S3RangeFile (seek / readinto / readall / _get_range / __init__ / tell) and S3StorageBackend.open_seekable are
-    # translated / pinned by translator/gen_range.py (Gen/GenRange.v)
+    # S3RangeFile (seek / readinto / readall / _get_range / __init__ / tell) and S3StorageBackend.open_seekable /
+    # open_file / read_file_with_etag / write_file_cas are translated / pinned by translator/gen_range.py (Gen/GenRange.v)
     ("storage_backend.py", "S3StorageBackend", "exists"): "f37d50647af42d66",
     ("storage_backend.py", "S3StorageBackend", "read_file"): "6646c78ffeb314ca",
     ("storage_backend.py", "S3StorageBackend", "write_file"): "f30eb5c5c25229fe",
     ("storage_backend.py", "S3StorageBackend", "delete_file"): "0e86bb7fbb8da036",
     ("storage_backend.py", "S3StorageBackend", "get_size"): "cfac8d9aa0568390",
     ("storage_backend.py", "S3StorageBackend", "get_modified_time"): "449e7e050b52ae0f",
-    ("storage_backend.py", "S3StorageBackend", "open_file"): "8b190d05be9dbeaa",
-    ("storage_backend.py", "S3FileStream", "read"): "6c25217c7f02295c",
     ("s3_consistency.py", "S3ConsistencyHandler", "retry_with_backoff"): "b03f7762df6c4a38",
     ("s3_consistency.py", None, "is_permanent_s3_error"): "2eb67e15b8e93edb",
     ("s3_consistency.py", None, "with_s3_retry"): "c4b431e6f349bb3e",
@@ -303,7 +301,6 @@ def gen_s3(src: str) -> str:
         raise Unsupported("write_file_cas: conflict-code tuple not found")
     code_read = find_code_compare(find_function(sb, "read_file", "S3StorageBackend"), (ast.Eq,), "read_file")
     code_exists = find_code_compare(find_function(sb, "exists", "S3StorageBackend"), (ast.NotEq,), "exists")
-    code_open = find_code_compare(find_function(sb, "open_file", "S3StorageBackend"), (ast.Eq,), "open_file")
     code_size = find_code_compare(find_function(sb, "get_size", "S3StorageBackend"), (ast.Eq,), "get_size")
     code_mtime = find_code_compare(find_function(sb, "get_modified_time", "S3StorageBackend"), (ast.Eq,), "get_modified_time")
 
@@ -382,7 +379,6 @@ Definition gen_full_prefix (env_prefix table_path : str) : str :=
 
 Definition gen_cas_conflict_codes : list str := {cas}.
 Definition gen_code_read_notfound : str := {lit(code_read)}.
-Definition gen_code_open_notfound : str := {lit(code_open)}.
 Definition gen_code_exists_notfound : str := {lit(code_exists)}.
 Definition gen_code_size_notfound : str := {lit(code_size)}.
 Definition gen_code_mtime_notfound : str := {lit(code_mtime)}.
